@@ -218,6 +218,14 @@ func (a SortableMsgs) Less(i int, j int) bool {
 	aiLoc := ai.Data.Location
 	ajLoc := aj.Data.Location
 	if aiLoc == nil || ajLoc == nil {
+		if aiLoc == nil && ajLoc == nil {
+			// Messages without a location can be generated in parallel (e.g. when
+			// entry points fail to resolve), so they need a total order too
+			if ai.Kind != aj.Kind {
+				return ai.Kind < aj.Kind
+			}
+			return ai.Data.Text < aj.Data.Text
+		}
 		return aiLoc == nil && ajLoc != nil
 	}
 	if aiLoc.File != ajLoc.File {
